@@ -67,8 +67,8 @@ CLAIMED = {
     "C18": (
         "proof",
         "Coq proofs of option locality on the renderer chunk model (all token lists) + differential correspondence of the renderer under all option combinations + context / parseInline exploration on the implementation",
-        "Theorems for ALL token lists: with xhtmlOut on vs off the tokens left behind are equal and the outputs coincide once the void-tag spellings are erased (C18_xhtmlOut_local); breaks only selects the hard-break spelling for softbreak tokens (C18_breaks_local); breaks/langPrefix/highlight are read for softbreak and fence tokens only (C18_option_frame); langPrefix changes only escaped data inside a fence (C18_langPrefix_local). Each run: implementation vs model under random (xhtmlOut, breaks, langPrefix, 4 highlighters); on the implementation: renderer-only options leave the token stream untouched and change HTML only in their place; parseInline/renderInline == the paragraph's children/HTML on single-paragraph inputs; the same guarded inline text yields the same inline tokens in paragraph, heading, list item, block quote and table cell, and when it occurs twice in a document.",
-        "Trusted: Coq kernel; renderer model tied by correspondence; the context half (block parser hands the same string to the inline parser in every context) is exploration only until the block model is in (partial).",
+        "Context half, paragraph context PROVED on the model: for EVERY line s that starts with a letter, ends in a non-blank and has no line-end character, and every configuration whose block chain contains the paragraph rule, parse(s LF) is paragraph_open, inline, paragraph_close where the inline token has content s and exactly the children that parseInline(s) gives its single inline token (C18_paragraph_is_parse_inline: both are join(inline_parse s); the proof runs the block parser - line tables, every rule of the chain failing on the line, the paragraph rule, the line loop - symbolically). Renderer half, theorems for ALL token lists: with xhtmlOut on vs off the tokens left behind are equal and the outputs coincide once the void-tag spellings are erased (C18_xhtmlOut_local); breaks only selects the hard-break spelling for softbreak tokens (C18_breaks_local); breaks/langPrefix/highlight are read for softbreak and fence tokens only (C18_option_frame); langPrefix changes only escaped data inside a fence (C18_langPrefix_local). Each run: implementation vs model under random (xhtmlOut, breaks, langPrefix, 4 highlighters); on the implementation: renderer-only options leave the token stream untouched and change HTML only in their place; parseInline/renderInline == the paragraph's children/HTML on single-paragraph inputs; the same guarded inline text yields the same inline tokens in paragraph, heading, list item, block quote and table cell, and when it occurs twice in a document.",
+        "Trusted: Coq kernel; renderer / pipeline model tied by correspondence; the other contexts (heading, list item, block quote, table cell, repeated occurrence) are exploration (partial).",
         "DESIGN.md §3 C18",
     ),
     "C05": (
@@ -109,7 +109,7 @@ CLAIMED = {
     "C09": (
         "proof",
         "End-to-end Coq theorem on the inline / pipeline model (renderInline of a backslash-escaped text is escapeHtml of the text) with the escapable table regenerated from /repo + whole-pipeline correspondence on templated documents + literal-text oracle on the implementation in 8 contexts",
-        "Theorems: for EVERY text t made of runs of characters the text rule does not stop at and of ASCII punctuation characters (each of the 32 is escapable: C09_every_punct_escapable, finite domain), the source esc(t) in which every punctuation character is preceded by a backslash is tokenized by the inline parser into text / text_special tokens whose concatenated content is exactly t (C09_inline_escaped_text: tokenizer loop, pending-text flushing, all four post-processing rules on a delimiter-free stream), and renderInline(esc(t)) = escapeHtml(t) (C09_render_inline_escaped: normalize, inline-mode block rule, inline, text_join, renderer) - for every configuration in which the escape rule is reached through text / newline / linkify(off) only, whatever inline rules follow it and whichever post-processing rules are enabled; hypotheses shown satisfiable on a concrete configuration and text. The escape rule itself: C09_escape_rule. Not theorems: the character-reference form ref(t), and the block contexts (paragraph, heading, emphasis, link text, image alt, title, table cell): decided each run on the implementation - for generated t (all punctuation, blanks, non-ASCII, controls) esc(t) and ref(t) must render as exactly escapeHtml(t) in 8 contexts under three configurations. Known finding (listed, reported each run): a table cell whose text ends in a backslash.",
+        "Theorems: for EVERY text t made of runs of characters the text rule does not stop at and of ASCII punctuation characters (each of the 32 is escapable: C09_every_punct_escapable, finite domain), the source esc(t) in which every punctuation character is preceded by a backslash is tokenized by the inline parser into text / text_special tokens whose concatenated content is exactly t (C09_inline_escaped_text: tokenizer loop, pending-text flushing, all four post-processing rules on a delimiter-free stream), renderInline(esc(t)) = escapeHtml(t) (C09_render_inline_escaped: normalize, inline-mode block rule, inline, text_join, renderer), and in the paragraph context render(esc(t) LF) = <p>escapeHtml(t)</p> LF for t starting with a letter (C09_render_paragraph_escaped: the block parser run symbolically on the one-line document) - for every configuration in which the escape rule is reached through text / newline / linkify(off) only, whatever inline rules follow it and whichever post-processing rules are enabled; hypotheses shown satisfiable on a concrete configuration and text. The escape rule itself: C09_escape_rule. Not theorems: the character-reference form ref(t), and the other block contexts (heading, emphasis, link text, image alt, title, table cell): decided each run on the implementation - for generated t (all punctuation, blanks, non-ASCII, controls) esc(t) and ref(t) must render as exactly escapeHtml(t) in 8 contexts under three configurations. Known finding (listed, reported each run): a table cell whose text ends in a backslash.",
         "Trusted: Coq kernel; inline / pipeline model tied by sampled correspondence; block contexts and the reference form by exploration (partial).",
         "DESIGN.md §3 C09, §8.2",
     ),
